@@ -110,8 +110,21 @@ class Repr:
         return hash(self.markup)
 
 
+_SIDE = {}
+
+
+def side_work():
+    """what a user-written tagify() may well do before returning: use the library for something unrelated (render another
+    tree that has a dependency, convert another JSX component and read its dependencies, build a list from a generator
+    that creates tags). Every tagifiable object of the alphabets does this, so every stratum that contains one also
+    covers re-entrant use of the library."""
+    from htmltools._jsx import JSXTag
+    JSXTag("Side", "s", _SIDE.setdefault("dep", HTMLDependency("side-jsx-dep", "0.2"))).tagify().get_dependencies()
+    Tag("ul", "side").extend(Tag("li", Tag("b", str(i))) for i in range(2))
+
+
 class Tagif:
-    """Tagifiable object: tagify() builds a fresh expansion from a spec each time."""
+    """Tagifiable object: tagify() builds a fresh expansion from a spec each time (after some unrelated library use)."""
 
     def __init__(self, result_spec):
         self.result_spec = result_spec
@@ -119,6 +132,8 @@ class Tagif:
 
     def tagify(self):
         self.calls += 1
+        if self.calls == 1:       # the first expansion of every tagifiable object re-enters the library
+            side_work()
         r = build(self.result_spec)
         if hasattr(r, "tagify") and not isinstance(r, (str, HTML, MetadataNode)):
             r = r.tagify()
